@@ -967,7 +967,8 @@ struct Tcp
 			Side& s = sides[c][0];
 			s.sock->open(tcp::v4());
 			s.sock->non_blocking(true);
-			s.sock->bind(tcp::endpoint(addrA, uint16_t(5000 + c)));
+			// (some clients use the very port number they dial, on their own address)
+			s.sock->bind(tcp::endpoint(addrA, uint16_t((plan.c("same_port", 0) ? 7000 : 5000) + c)));
 			do_connect(s, 0);
 		}
 		sim->run();
@@ -1181,6 +1182,7 @@ struct TcpEngine : Engine
 		p.cfg["accept_variant"] = int64_t(rng.below(3));
 		p.cfg["early_write"] = rng.chance(0.15) ? 1 : 0;
 		p.cfg["shadow_timer"] = rng.chance(0.2) ? 1 : 0;
+		p.cfg["same_port"] = rng.chance(0.1) ? 1 : 0;
 		bool const finite = (c06 && rng.chance(0.7)) || (c05 && rng.chance(0.35));
 		int nconn = 1;
 		if (!finite || !c06) nconn = int(rng.range(1, c20 ? 2 : 3));
